@@ -182,6 +182,15 @@ func TestVerif_C06(t *testing.T) {
 					seg = nil // byte-wise delivery of a full TLS handshake is slow; keep half of them whole
 				}
 				time.Sleep(time.Duration(rng.Int64N(int64(3 * time.Second))))
+				if k%10 == 7 {
+					// a client whose clock is ahead by just under the tolerance: with the server clock at N + f
+					// seconds the client clock reads N + 180 + f/2, it embeds N + 180, and N + 180 - (N + f)
+					// is inside the open window by f (time that passes during the handshake only helps)
+					if f := time.Duration(time.Now().Nanosecond()); f >= 2*time.Millisecond {
+						c.Offset = 180*time.Second - f/2
+						r.Count("handshakes_just_inside_the_window", 1)
+					}
+				}
 				res := g.componentHandshake(c, seg)
 				r.Count("evaluations", 1)
 				r.Distinct("cases", vk.Hash64(c.UID, c.Method, c.Enc, c.SessionID, c.UDP, c.Browser, c.Transport, c.ServerName, c.Offset))
